@@ -7,7 +7,9 @@ package main
 import (
 	"fmt"
 	"go/ast"
+	"go/constant"
 	"go/token"
+	"go/types"
 	"strings"
 
 	"golang.org/x/tools/go/ssa"
@@ -36,12 +38,31 @@ func (c *Ctx) checkTailCallShape() {
 		okArgs := idx >= 1 && len(seq) >= 2 && seq[0].kind == "Seg" && strings.HasPrefix(seq[0].callee, "GenerateCallArgsForFunction") && seq[0].tail == tailF
 		c.check(okArgs, "ES-G", "Generator.GenerateCallBySymbol", "tail call: arguments first, not in tail position", seq[0].pos,
 			"the arguments of the tail call are compiled first, with the tail flag cleared", "tail-call template does not start with the argument code compiled with the tail flag cleared: "+shape)
-		// unwind: RemoveScope × gen.scopes
+		// unwind: RemoveScope × gen.scopes, between the arguments and the jump
 		okUnwind := false
-		for i := 1; i < idx; i++ {
+		after := linConst(0) // number of instructions emitted after PrepareCall
+		singles := 0
+		for i := 1; i < len(seq); i++ {
 			a := seq[i]
-			if a.kind == "Rep" && len(a.alts) == 1 && len(a.alts[0]) == 1 && a.alts[0][0].kind == "RemoveScopeInstr" && a.countLin != nil && a.countLin.eq(linSym("σ")) {
+			if i == idx {
+				continue
+			}
+			isRep := a.kind == "Rep" && len(a.alts) == 1 && len(a.alts[0]) == 1 && a.alts[0][0].kind == "RemoveScopeInstr" && a.countLin != nil
+			if isRep && a.countLin.eq(linSym("σ")) {
 				okUnwind = true
+			}
+			if i > idx && after != nil {
+				switch {
+				case isRep:
+					after = after.add(a.countLin)
+				case a.kind == "Rep" || a.kind == "Seg" || a.kind == "Alt":
+					after = nil
+				default:
+					after = after.add(linConst(1))
+				}
+			}
+			if a.kind == "RemoveScopeInstr" {
+				singles++
 			}
 		}
 		c.check(okUnwind, "ES-G", "Generator.GenerateCallBySymbol", "tail call: unwinds every open non-function scope", seq[idx].pos,
@@ -49,11 +70,18 @@ func (c *Ctx) checkTailCallShape() {
 		// same arity
 		okN := seq[0].nvals != nil && seq[idx].n != nil && seq[0].nvals.eq(seq[idx].n)
 		c.check(okN, "ES-G", "Generator.GenerateCallBySymbol", "tail call: PrepareCall arity", seq[idx].pos, "PrepareCall is told the number of arguments that were pushed", "PrepareCall's argument count differs from the number of arguments compiled")
-		// fresh scope: RemoveScope then Goto 0
-		tailOK := idx+2 < len(seq)+0 && len(seq) == idx+3 && seq[idx+1].kind == "RemoveScopeInstr" && seq[idx+2].kind == "GotoInstr" && seq[idx+2].off != nil && seq[idx+2].off.isConst() && seq[idx+2].off.c == 0
+		// fresh scope: one RemoveScope for the function scope, then Goto 0 as the last instruction
+		n := len(seq)
+		tailOK := n >= 3 && singles == 1 && seq[n-1].kind == "GotoInstr" && seq[n-1].off != nil && seq[n-1].off.isConst() && seq[n-1].off.c == 0
 		c.check(tailOK, "ES-G", "Generator.GenerateCallBySymbol", "tail call: fresh function scope", seq[idx].pos,
 			"the finished activation's function scope is removed and the jump targets instruction 0, which opens a new one",
-			"the tail call re-enters the function without leaving the old function scope and opening a new one (expected `... PrepareCall RemoveScope Goto(0)`): closures created in earlier iterations see the parameters of later ones: "+shape)
+			"the tail call re-enters the function without leaving the old function scope and opening a new one (expected one RemoveScope for the function scope and a final Goto(0)): closures created in earlier iterations see the parameters of later ones: "+shape)
+		// the instructions PrepareCall passes over when the callee is not the running function are exactly those of the jump
+		if seq[idx].off != nil {
+			c.check(after != nil && seq[idx].off.eq(after), "ES-G", "Generator.GenerateCallBySymbol", "tail call: PrepareCall passes over exactly the jump", seq[idx].pos,
+				"the count PrepareCall is given equals the number of instructions emitted after it (scope removals and the goto)",
+				"the number of instructions PrepareCall is told to pass over differs from the number emitted after it: when the name is not bound to the running function, execution resumes inside the jump sequence or past the following code: "+shape)
+		}
 		noCall := true
 		for _, a := range seq {
 			if a.kind == "CallExprInstr" {
@@ -122,6 +150,7 @@ func checkC09(c *Ctx) {
 	c.checkTailCallShape()
 	c.checkLoopScopeDepth("ES-S")
 	c.checkTailArity("C09-ARITY")
+	c.checkTailSelf("C09-SELF")
 	c.checkSelfNameShadowing("C09-SHADOW")
 	c.checkGeneratorCtors("ES-CTOR")
 	c.checkRegisteredBeforeBody("C09-REG")
@@ -168,6 +197,29 @@ func (c *Ctx) checkTailArity(rule string) {
 	ref := arityTests(callF)
 	c.check(len(ref) >= 1, rule, "Zlisp.CallFunction", "ordinary call checks the arity", callF.Pos(),
 		"CallFunction compares the argument count with the function's arity and returns an error on mismatch", "CallFunction no longer rejects a wrong argument count")
+	// sibling agreement: every interpreter routine CallFunction runs on the arguments of an ordinary call
+	// (lazy wrapping, name/type check of a typed func, variadic packing) is also run before the jump
+	zl := c.named("Zlisp")
+	seenCallee := map[*ssa.Function]bool{}
+	nSib := 0
+	eachInstr(callF, func(b *ssa.BasicBlock, i int, in ssa.Instruction) {
+		ci, ok := in.(ssa.CallInstruction)
+		if !ok {
+			return
+		}
+		g := ci.Common().StaticCallee()
+		if g == nil || seenCallee[g] || zl == nil || !isMethodOf(g, zl) {
+			return
+		}
+		seenCallee[g] = true
+		nSib++
+		c.check(len(callsOf(prep, g)) >= 1, rule, "PrepareCallInstr.execute", "prepares the arguments with "+g.Name()+" as an ordinary call does", in.Pos(),
+			"the routine CallFunction runs on the arguments of an ordinary call is also run before the tail jump",
+			"CallFunction runs "+g.Name()+" on the arguments of an ordinary call, the tail-call preparation does not: a self call in tail position binds arguments an ordinary call would have rejected, reordered or wrapped")
+	})
+	if nSib < 3 {
+		c.undecided(rule, "Zlisp.CallFunction", "argument routines", callF.Pos(), fmt.Sprintf("only %d argument routines found in CallFunction (3 confirmed by reading)", nSib))
+	}
 	sites := callsOf(prep, lazyPrep)
 	got := arityTests(prep)
 	c.check(len(sites) > 0 && len(got) >= len(sites), rule, "PrepareCallInstr.execute", "tail call checks the arity like an ordinary call", prep.Pos(),
@@ -667,4 +719,69 @@ func (c *Ctx) checkSelfNameShadowing(rule string) {
 			"the names brought into scope here are compared with the current function name, which is cleared on a match",
 			"names are brought into scope here without being compared with the name of the function being compiled: a let binding or parameter that shadows the function is still taken for the function itself, and a call of it in tail position becomes a jump to the start of the enclosing function (which can loop for ever)")
 	}
+}
+
+// checkTailSelf: the generator picks the tail jump because the callee is
+// spelled like the function being compiled. Whether that name is bound to the
+// running function is a run-time fact (def/defn/set of the name, the function
+// running under another name, a builtin of that name): the instruction that
+// prepares the jump must compare the resolved callee with the running function,
+// report "self" only under that comparison, and make the ordinary call otherwise.
+func (c *Ctx) checkTailSelf(rule string) {
+	prep := c.mustFn(rule, "PrepareCallInstr.execute")
+	exec := c.mustFn(rule, "PrepareCallInstr.Execute")
+	callExec := c.mustFn(rule, "CallInstr.Execute")
+	cur := c.mustField(rule, "Zlisp", "curfunc")
+	sfn := c.named("SexpFunction")
+	if prep == nil || exec == nil || callExec == nil || cur == nil || sfn == nil {
+		return
+	}
+	isSelfCmp := func(cond ssa.Value) (bool, bool) {
+		bo, ok := cond.(*ssa.BinOp)
+		if !ok || (bo.Op != token.EQL && bo.Op != token.NEQ) {
+			return false, false
+		}
+		_, lx := loadOfField(bo.X, cur)
+		_, ly := loadOfField(bo.Y, cur)
+		if !lx && !ly {
+			return false, false
+		}
+		other := bo.X
+		if lx {
+			other = bo.Y
+		}
+		if nm, ok := derefNamed(other.Type()); !ok || nm != sfn {
+			return false, false
+		}
+		return true, bo.Op == token.EQL
+	}
+	res := prep.Signature.Results()
+	if res.Len() < 1 || !types.Identical(res.At(0).Type(), types.Typ[types.Bool]) {
+		c.bad(rule, "PrepareCallInstr.execute", "reports whether the callee is the running function", prep.Pos(),
+			"the instruction that prepares the tail jump does not report whether the name is bound to the running function: the jump re-enters the compiled body whatever the name refers to at the time of the call")
+		return
+	}
+	nSelf, bad := 0, token.NoPos
+	for _, r := range returnsOf(prep) {
+		if k, ok := r.Results[0].(*ssa.Const); ok && !constant.BoolVal(k.Value) {
+			continue
+		}
+		nSelf++
+		if !guardedBy(r.Block(), isSelfCmp) {
+			bad = r.Pos()
+		}
+	}
+	c.check(nSelf > 0 && !bad.IsValid(), rule, "PrepareCallInstr.execute", "self only when the resolved callee is the running function", orPos(bad, prep.Pos()),
+		fmt.Sprintf("each of the %d returns that report a self call is reached only when the function the name resolves to is env.curfunc", nSelf),
+		"a path reports a self call without comparing the function the name resolves to with the running function: after (def f ...), (set f ...) or a re-defn inside the body, or when the function runs under another name, the tail call jumps back into the old body instead of calling what the name is bound to")
+	sites := callsOf(exec, callExec)
+	c.check(len(sites) >= 1, rule, "PrepareCallInstr.Execute", "ordinary call when the callee is not the running function", exec.Pos(),
+		"the not-self path makes the call through CallInstr.Execute", "there is no ordinary call on the not-self path of the tail-call preparation")
+}
+
+func orPos(p, q token.Pos) token.Pos {
+	if p.IsValid() {
+		return p
+	}
+	return q
 }
